@@ -49,3 +49,16 @@ v = subprocess.run(["python3-vt", "-c", "import json,jsonschema;jsonschema.valid
 print((v.stdout or v.stderr).strip().splitlines()[-1] if (v.stdout or v.stderr).strip() else "validation not run")
 if v.returncode != 0:
     sys.exit(1)
+# sanity: the committed evidence must be a record of the unchanged tree
+import glob
+bad = []
+for f in sorted(glob.glob(os.path.join(ROOT, "evidence", "C*.json"))):
+    d = json.load(open(f))
+    c = d.get("coverage", {})
+    if c.get("obligations") != c.get("discharged") or d.get("violations"):
+        bad.append(os.path.basename(f))
+dirty = subprocess.run(["git", "-C", "/repo", "status", "--porcelain", "--untracked-files=no"], capture_output=True, text=True).stdout.strip()
+if bad:
+    print("WARNING: evidence files written by a failing run (re-run the check on the unchanged tree before committing):", bad)
+if dirty:
+    print("WARNING: /repo has uncommitted changes to tracked files")
